@@ -5,6 +5,7 @@ typed items (coq/gen/Gen_vinegar.v), all tied in coq/proofs/VinegarTie.v:
   dump_*                  the denied markers, the ignored / private attribute rule, the dumpable-or-repr rule
   load_import_guard       condition under which load() calls __import__          (rcond of model/Vinegar.v)
   load_ladder             the class-resolution if/elif ladder of load()           (rprog of model/Vinegar.v)
+  load_lookup_mode        getattr (runs a module-level __getattr__, PEP 562) or __dict__ lookup at the sys.modules leaf
   load_class_guard ..     isinstance/issubclass guard, cls.__new__(cls), constants
   box_exc_map ..          which config keys feed dump()/load(), their defaults, what is re-raised locally
 shape items: the rest of dump() after the fast path, load(), _get_exception_class, _box_exc, _unbox_exc,
@@ -44,28 +45,75 @@ def _cond(t):
     raise Unrecognised("load condition: " + s)
 
 
-def _src(st):
+DICT_FORMS = ["vars(%s).get(%s)", "%s.__dict__.get(%s)", "getattr(%s, '__dict__', {}).get(%s)"]
+SYSMOD = "sys.modules[modname]"
+
+
+def _lookup_mode(tree, value):
+    """how load() reads the class out of an already imported module -> lookup_mode of model/Vinegar.v
+       getattr(module, name, None) runs a module-level __getattr__ (PEP 562), a __dict__ lookup does not"""
+    s = u(value)
+    dict_forms = [f % (SYSMOD, "clsname") for f in DICT_FORMS]
+    if s == "getattr(%s, clsname, None)" % SYSMOD:
+        return "LkGetattr"
+    if s in dict_forms:
+        return "LkDict"
+    if s in ["getattr(%s, clsname, None) if import_custom_exceptions else %s" % (SYSMOD, d) for d in dict_forms]:
+        return "LkDictUnlessImport"
+    if isinstance(value, ast.Call) and isinstance(value.func, ast.Name) and [u(a) for a in value.args] == [SYSMOD, "clsname", "import_custom_exceptions"] \
+            and not value.keywords:
+        fn = find_func(tree, value.func.id)
+        names = [a.arg for a in fn.args.args]
+        body = strip_doc(fn.body)
+        if len(names) != 3 or fn.args.vararg or fn.args.kwarg or fn.args.kwonlyargs or fn.args.defaults or fn.decorator_list:
+            raise Unrecognised("lookup helper signature")
+        m, c, h = names
+        want_if = "if %s:\n    return getattr(%s, %s, None)" % (h, m, c)
+        if len(body) == 2 and u(body[0]) == want_if and u(body[1]) in ["return " + f % (m, c) for f in DICT_FORMS]:
+            return "LkDictUnlessImport"
+        want_ifelse = [want_if + "\nelse:\n    return " + f % (m, c) for f in DICT_FORMS]
+        if len(body) == 1 and u(body[0]) in want_ifelse:
+            return "LkDictUnlessImport"
+        if len(body) == 1 and u(body[0]) in ["return getattr(%s, %s, None) if %s else %s" % (m, c, h, f % (m, c)) for f in DICT_FORMS]:
+            return "LkDictUnlessImport"
+        raise Unrecognised("lookup helper body: " + u(fn))
+    return None
+
+
+class _Ladder:
+    """translation state of one ladder: the lookup mode found at the sys.modules leaf"""
+
+    def __init__(self, tree):
+        self.tree, self.mode, self.leaf = tree, None, None
+
+
+def _src(st, lad=None):
     if not (isinstance(st, ast.Assign) and len(st.targets) == 1 and u(st.targets[0]) == "cls"):
         raise Unrecognised("ladder leaf: " + u(st))
     s = u(st.value)
-    if s == "getattr(sys.modules[modname], clsname, None)":
-        return "SrcSysModules"
     if s == "getattr(exceptions_module, clsname, None)":
         return "SrcBuiltins"
     if s == "None":
         return "SrcNone"
+    if lad is not None:
+        mode = _lookup_mode(lad.tree, st.value)
+        if mode is not None:
+            if lad.mode is not None:
+                raise Unrecognised("two sys.modules lookups in the ladder")
+            lad.mode, lad.leaf = mode, st
+            return "SrcSysModules"
     raise Unrecognised("ladder source: " + s)
 
 
-def _prog(body):
+def _prog(body, lad=None):
     if len(body) != 1:
         raise Unrecognised("ladder branch with %d statements" % len(body))
     st = body[0]
     if isinstance(st, ast.If):
         if not st.orelse:
             raise Unrecognised("ladder if without else")
-        return "(RIf %s %s %s)" % (_cond(st.test), _prog(st.body), _prog(st.orelse))
-    return "(RRet %s)" % _src(st)
+        return "(RIf %s %s %s)" % (_cond(st.test), _prog(st.body, lad), _prog(st.orelse, lad))
+    return "(RRet %s)" % _src(st, lad)
 
 
 def _fast_guard(st):
@@ -222,7 +270,15 @@ def translate(repo):
                     or isinstance(n, (ast.Import, ast.ImportFrom)))
         if n_imp != 1:
             raise Unrecognised("load contains %d import/exec sites" % n_imp)
-        out.append(typed("load_ladder", "rprog", _prog([body[4]])))
+        lad = _Ladder(tree)
+        out.append(typed("load_ladder", "rprog", _prog([body[4]], lad)))
+        if lad.mode is None:
+            raise Unrecognised("load ladder has no sys.modules lookup")
+        out.append(typed("load_lookup_mode", "lookup_mode", lad.mode))
+        # nothing else in load() may read an attribute of a module of sys.modules
+        others = [n for n in ast.walk(fn) if isinstance(n, ast.Subscript) and u(n) == SYSMOD and n is not None]
+        if len(others) != 1:
+            raise Unrecognised("load reads sys.modules[modname] %d times" % len(others))
         if u(body[5]) != "if not isinstance(cls, type) or not issubclass(cls, BaseException):\n    cls = None":
             raise Unrecognised("load class guard")
         out.append(typed("load_class_guard", "bool", "true"))
@@ -240,6 +296,8 @@ def translate(repo):
             raise Unrecognised("load remote_ver")
         out.append(typed("load_version_attr", "string", coq_string(_const_str(vd[0].value.args[1]))))
         out.append(typed("load_denied_ver", "string", coq_string(_const_str(vd[0].value.args[2]))))
+        # the shape of load() is taken with the (typed) sys.modules lookup expression blanked, so that both lookup forms share it
+        lad.leaf.value = ast.Name(id="SYS_MODULES_LOOKUP", ctx=ast.Load())
         out.append(shape("load", func_shape(fn)))
         return out
     guarded(load_facts)
